@@ -293,7 +293,7 @@ def build_life(rng: random.Random, k: int, pool: list, cfg: dict, phase: int, ar
                 texts[pt["m"]] = next(p for p in pool if p["id"] == pt["m"])["text"]
             out.append(pt)
         out.append(op)
-    return {"life": k, "hash_key": hk, "phase": phase, "texts": texts, "ops": out,
+    return {"life": k, "hash_key": hk, "sympy_seed": rng.randrange(0, 2 ** 31), "phase": phase, "texts": texts, "ops": out,
             "op_timeout": 180}
 
 
@@ -447,6 +447,7 @@ def sub_life(plan: dict, keep: list, life_no: int, hash_key=None) -> dict:
     ops = [plan["ops"][j] for j in keep]
     used = {o["m"] for o in ops if o.get("m")}
     return {"life": life_no, "hash_key": plan["hash_key"] if hash_key is None else hash_key,
+            "sympy_seed": plan.get("sympy_seed", 0),
             "phase": plan.get("phase", 0), "texts": {k: v for k, v in plan["texts"].items() if k in used}, "ops": ops,
             "op_timeout": plan.get("op_timeout", 180)}
 
@@ -469,6 +470,7 @@ class Minimiser:
         self.max_trials = max_trials
         self.per_class = max(30, max_trials // 4)
         self.class_start = 0
+        self.frozen = False
         self.n = 0
 
     def run(self, plans: list) -> list:
@@ -477,24 +479,54 @@ class Minimiser:
         return core.run_phased(plans, self.root / ("min%04d" % self.n), self.workers, self.budget)
 
     def exhausted(self) -> bool:
-        return self.trials >= self.max_trials or self.trials - self.class_start >= self.per_class
+        """True when no more *minimisation* trials should be spent (attribution runs are
+        never skipped: a violation must always be classified before it is reported)."""
+        return self.frozen or self.trials >= self.max_trials or self.trials - self.class_start >= self.per_class
 
     def new_class(self):
         self.class_start = self.trials
 
 
+def alt_sympy_seeds(seed: int, k: int) -> list:
+    return [(seed * 7919 + (j + 1) * 104729 + 1) % (2 ** 31) for j in range(k)]
+
+
+def rng_sensitive(base: dict, key: str, mini: "Minimiser", k: int = 6):
+    """Run `base` (a life) under its own and k other sympy seeds - same hash key, same
+    history.  Returns (True, [life_x, life_y]) with two lives that differ ONLY in the sympy
+    seed and disagree on `key`, or (False, None)."""
+    lives = [dict(base, life=0)] + [dict(base, life=j + 1, sympy_seed=sd)
+                                     for j, sd in enumerate(alt_sympy_seeds(base.get("sympy_seed", 0), k))]
+    res = mini.run(lives)
+    ds = [digest_of(r, key) for r in res]
+    for j in range(1, len(lives)):
+        if ds[0] is not None and ds[j] is not None and ds[j] != ds[0]:
+            return True, [dict(lives[0], life=0), dict(lives[j], life=1)]
+    return False, None
+
+
 def attribute_and_minimise(v: dict, plans_by_life: dict, mini: Minimiser) -> dict:
-    """Classify a violation (hash-key / history) and shrink it to a small replay."""
+    """Classify a violation (sympy-rng / hash-key / history) and shrink it to a small replay."""
     key = v["key"]
     wa, wb = v["witnesses"]
     pa, pb = plans_by_life[wa["life"]], plans_by_life[wb["life"]]
-    fa = sub_life(pa, needed_ops(pa["ops"], wa["i"]) + [wa["i"]], 0)
-    fb = sub_life(pb, needed_ops(pb["ops"], wb["i"]) + [wb["i"]], 1)
-    ra, rb = mini.run([fa, fb])
-    da, db = digest_of(ra, key), digest_of(rb, key)
     doc = {"property": "C09", "key": key, "op_kind": v["op_kind"], "model": v["model"]}
     if v["op_kind"] == "ARRAY":
         return _attribute_array(v, plans_by_life, mini, doc)
+    fa = sub_life(pa, needed_ops(pa["ops"], wa["i"]) + [wa["i"]], 0)
+    fb = sub_life(pb, needed_ops(pb["ops"], wb["i"]) + [wb["i"]], 1)
+    # 1. does the outcome depend on sympy's own RNG (same hash key, same history, other
+    #    sympy seed)?  Tested on the short fresh lives first, then on the full histories.
+    for base in (fa, fb, sub_life(pa, list(range(wa["i"] + 1)), 0), sub_life(pb, list(range(wb["i"] + 1)), 0)):
+        sens, pair = rng_sensitive(base, key, mini)
+        if sens:
+            doc["kind"] = "sympy-rng"
+            doc["lives"] = pair
+            return doc
+    # 2. hash key: fresh single-observation lives under the two hash keys, SAME sympy seed
+    fb = dict(fb, sympy_seed=fa["sympy_seed"])
+    ra, rb = mini.run([fa, fb])
+    da, db = digest_of(ra, key), digest_of(rb, key)
     if da is not None and db is not None and da != db:
         doc["kind"] = "hash-key"
         lives = [fa, fb]
@@ -503,19 +535,26 @@ def attribute_and_minimise(v: dict, plans_by_life: dict, mini: Minimiser) -> dic
         doc["lives"] = lives
         doc["minimised_key"] = key2
         return doc
-    # history: some life disagrees with its own fresh run under the same hash key
-    for (w, p, fresh_d, fresh) in ((wa, pa, da, fa), (wb, pb, db, fb)):
+    # 3. history: some life disagrees with its own fresh run under the same hash key and
+    #    the same sympy seed
+    for (w, p) in ((wa, pa), (wb, pb)):
+        fresh = sub_life(p, needed_ops(p["ops"], w["i"]) + [w["i"]], 0)
+        fresh_d = digest_of(mini.run([fresh])[0], key)
         if fresh_d is not None and w["digest"] != fresh_d:
             need = needed_ops(p["ops"], w["i"])
             prefix = [j for j in range(w["i"]) if j not in need]
             keep = ddmin_ops(p, prefix, need, w["i"], key, fresh_d, mini)
             hist = sub_life(p, sorted(keep + need) + [w["i"]], 1)
-            fresh = dict(fresh, life=0, hash_key=p["hash_key"])
+            # the shortened history must not have turned into an RNG effect
+            sens, pair = rng_sensitive(hist, key, mini)
+            if sens:
+                doc["kind"] = "sympy-rng"
+                doc["lives"] = pair
+                return doc
             doc["kind"] = "history"
             doc["lives"] = [fresh, hist]
             return doc
-    # fresh runs agree with each other and with the witnesses' keys' fresh digests:
-    # keep the two complete lives (still an exact replay)
+    # nothing smaller reproduces: keep the two complete lives (still an exact replay)
     doc["kind"] = "unattributed"
     doc["lives"] = [dict(pa, life=0), dict(pb, life=1)]
     return doc
@@ -821,9 +860,8 @@ def main(tier: str, workers: int = 16) -> int:
         v = classes[ck][0]
         mini.new_class()
         try:
-            doc = attribute_and_minimise(v, plans_by_life, mini) if (not mini.exhausted() and n_ck < cfg.get("max_min_classes", 3)) else {
-                "property": "C09", "key": v["key"], "op_kind": v["op_kind"], "model": v["model"], "kind": "unminimised",
-                "lives": [dict(plans_by_life[w["life"]]) for w in v["witnesses"]]}
+            mini.frozen = mini.trials >= mini.max_trials or n_ck >= cfg.get("max_min_classes", 3)
+            doc = attribute_and_minimise(v, plans_by_life, mini)
         except core.HarnessError as e:
             print("HARNESS-ERROR during minimisation: %s" % e)
             return core.EXIT_HARNESS
